@@ -10,5 +10,4 @@ var NotApplicable = map[string]string{
 // Pending are properties whose checks are designed (DESIGN.md section 4) but not built yet; they are
 // listed as not applicable until a check exists, so the manifest never claims an unbuilt check.
 var Pending = map[string]string{
-	"C17": "check designed in DESIGN.md section 4 but not built yet in this round; not claimed until it exists",
 }
